@@ -178,8 +178,15 @@ Section Fmt.
         end
     end.
 
+  (* the sort key of an element: its Value in a primitive list; in a keyed list the value of its
+     sort field when the element is a mapping, "" for any other element (a scalar, an alias, a nested
+     sequence: `if s.Content[i].Kind != yaml.MappingNode { break }`) *)
   Definition seq_key (f : string) (e : cnode) : res string :=
-    if String.eqb f "" then Ok (cvalue e) else scan_field f (content e) "".
+    if String.eqb f "" then Ok (cvalue e)
+    else match e with
+         | CMap _ _ => scan_field f (content e) ""
+         | _ => Ok ""
+         end.
 
   (* every element takes part in at least one Less call as soon as there are two of them *)
   Definition seq_keys (f : string) (es : list cnode) : res (list string) :=
@@ -422,32 +429,6 @@ Fixpoint cnode_eqb (a b : cnode) {struct a} : bool :=
   end.
 
 (* ---------- predicates used as hypotheses of the theorems (and as domain tests) ---------- *)
-
-Definition is_seq_node (n : cnode) : bool := match n with CSeq _ _ => true | _ => false end.
-
-(* no sequence is a direct element of a KEYED whitelisted list (one sorted by a field of its elements) *)
-Fixpoint keyed_ok (kind api : string) (path : string) (n : cnode) {struct n} : bool :=
-  match n with
-  | CScalar _ _ | CAlias _ _ => true
-  | CMap _ kvs =>
-      (fix go (l : list (cnode * cnode)) : bool :=
-         match l with
-         | [] => true
-         | kv :: t =>
-             keyed_ok kind api path (fst kv) &&
-             keyed_ok kind api (path ++ "." ++ cvalue (fst kv)) (snd kv) && go t
-         end) kvs
-  | CSeq _ es =>
-      match sort_field kind api path with
-      | Some f => String.eqb f "" || forallb (fun e => negb (is_seq_node e)) es
-      | None => true
-      end &&
-      (fix go (l : list cnode) : bool :=
-         match l with
-         | [] => true
-         | e :: t => keyed_ok kind api path e && go t
-         end) es
-  end.
 
 Fixpoint nodup_strs (l : list string) : bool :=
   match l with
